@@ -31,6 +31,7 @@ func runC01(e *Env) {
 	ruleC01Enc(e)
 	ruleC01Lang(e)
 	ruleDeleg(e, "C01.deleg", "date")
+	ruleNewDeleg(e, "C01.enc")
 	ruleLimitAccept(e, "C01.limit", "date")
 	e.S.Floor("C01.fmt", 8)
 	e.S.Floor("C01.enc", 12)
